@@ -3,7 +3,7 @@ import random
 
 CONTEXTS = ["stmt", "arg", "decorator", "default", "comprehension", "lambda", "multiline",
             "nested", "assign", "method_chain", "await_like", "class_body", "kwvalue", "subscript",
-            "samename_method", "samename_inner_def"]
+            "samename_method", "samename_inner_def", "fstring_multiline", "fstring_format_spec"]
 
 
 def spellings(q):
@@ -78,6 +78,11 @@ def in_context(ctx, call, pre_lines):
         body = ["print(key=%s)" % call]; off = 0
     elif ctx == "subscript":
         body = ["zz_d[%s] = 1" % call]; off = 0
+    elif ctx == "fstring_multiline":
+        # inside a triple-quoted f-string, on a later line than the opening quote
+        body = ["zz_s = f\'\'\'", "head {zz_h}", "{%s}" % call.replace("'", '"'), "tail\'\'\'"]; off = 2
+    elif ctx == "fstring_format_spec":
+        body = ["zz_s = f'{zz_v:{%s}}'" % call.replace("'", '"')]; off = 0
     elif ctx == "samename_method":
         # a method that happens to carry the local name of the callee does not rebind the module-level name
         import re as _re
